@@ -137,8 +137,9 @@ impl<'s> FamVisitor for Runner<'s> {
                 obs.borrow_mut().fault(fk::max_len_knob);
             }
             9 => {
-                // "no limit"
-                reader.set_max_len(u32::MAX);
+                // "no limit" (64 MiB rather than u32::MAX, so that a mutated reader that loses its place cannot be made to
+                // zero-fill gigabytes per run)
+                reader.set_max_len(64 << 20);
                 obs.borrow_mut().fault(fk::max_len_knob);
             }
             _ => {}
